@@ -166,6 +166,7 @@ enum Op {
     JunkAdd(u16, usize),  // add junk value of len
     SetCf(usize),         // set_content_format(value of m.options[i]) - replaces whatever is there
     SetObs(usize),        // set_observe_value(value of m.options[i])
+    JunkPadded(usize),    // add the value of m.options[i] with a leading zero byte (same number, non-canonical)
     Clear(u16),
     ClearAll,
 }
@@ -267,6 +268,9 @@ pub fn build_packet(m: &Msg, r: &mut Rng) -> (Packet, String) {
                 if single && minimal && *n == 12 && v.len() <= 2 && r.bool() {
                     let id = v.iter().fold(0usize, |a, b| a << 8 | *b as usize);
                     if coap_lite::ContentFormat::try_from(id).is_ok() {
+                        if v.len() < 2 && r.bool() {
+                            out.push(Op::JunkPadded(i));
+                        }
                         for _ in 0..r.usize_below(3) {
                             out.push(Op::JunkAdd(12, r.usize_below(3)));
                         }
@@ -275,6 +279,9 @@ pub fn build_packet(m: &Msg, r: &mut Rng) -> (Packet, String) {
                     }
                 }
                 if single && minimal && *n == 6 && v.len() <= 4 && r.bool() {
+                    if v.len() < 4 && r.bool() {
+                        out.push(Op::JunkPadded(i));
+                    }
                     for _ in 0..r.usize_below(3) {
                         out.push(Op::JunkAdd(6, r.usize_below(4)));
                     }
@@ -360,6 +367,13 @@ pub fn build_packet(m: &Msg, r: &mut Rng) -> (Packet, String) {
             Op::JunkAdd(n, l) => {
                 p.add_option(CoapOption::from(*n), vec![0xAB; *l]);
                 desc.push_str(&format!("junk{},", n));
+            }
+            Op::JunkPadded(i) => {
+                let (n, v) = &m.options[*i];
+                let mut padded = vec![0u8];
+                padded.extend_from_slice(v);
+                p.add_option(CoapOption::from(*n), padded);
+                desc.push_str(&format!("padded{},", n));
             }
             Op::SetCf(i) => {
                 use std::convert::TryFrom;
